@@ -472,25 +472,22 @@ func ruleC17(c *Ctx) {
 						}
 					}
 				})
-				switch {
-				case cond.contains(func(x *Term) bool { return x.isCall("strings.Contains") || x.isCall("strings.Index") }):
-					testDesc = "strings.Contains"
-				default:
-					testDesc = "filter"
-				}
-				if cond.contains(func(x *Term) bool { return x.isCall("poly/transform.ReverseComplement") }) {
-					testDesc += "(rc)"
-				}
+				// which test this is, read from the call that is handed the window (not from what the window's
+				// bounds were computed from: a slide by "last occurrence + 1" has a search in the bounds too)
+				testDesc = windowTestKind(tb, deb, cond)
 				if !testsWindow {
 					// which test guards this shift, if the loop itself does not test the window
-					testDesc = "filter"
+					testDesc = ""
+					var at *ssa.BasicBlock
 					pcs := pathCond(tb, cb.Blocks[0], blk)
 					for _, a := range pcs.atoms() {
-						if a.Atom.contains(func(x *Term) bool { return x.isCall("strings.Contains") || x.isCall("strings.Index") }) {
-							testDesc = "strings.Contains"
-							if a.Atom.contains(func(x *Term) bool { return x.isCall("poly/transform.ReverseComplement") }) {
-								testDesc += "(rc)"
-							}
+						// the innermost of the tests under which the shift is taken
+						k, site := windowTest(tb, deb, a.Atom)
+						if k == "" || site == nil || !site.Dominates(blk) {
+							continue
+						}
+						if at == nil || at.Dominates(site) {
+							testDesc, at = k, site
 						}
 					}
 				}
@@ -534,6 +531,9 @@ func ruleC17(c *Ctx) {
 					stR = holds
 				case !testsWindow && testedElsewhere:
 					why = "the loop around the shift does not test the window in its condition; the shifted window is tested in its body"
+					if w := sameTestSkipped(tb, cb, deb, blk, app.Block()); w != "" {
+						stR, why = broken, w
+					}
 				case !testsWindow:
 					stR, why = broken, "the window is moved once and accepted without being tested again: the loop around this shift ("+c.W.pos(hdr.Instrs[0].Pos())+") does not test the window, so a second occurrence of the banned sequence (or a filter rejection) in the shifted window goes unnoticed"
 				default:
@@ -576,7 +576,7 @@ func ruleC17(c *Ctx) {
 					for _, in := range lb.Instrs {
 						if cl, ok := in.(*ssa.Call); ok {
 							n := calleeName(cl)
-							if n == "strings.Contains" || n == "strings.Index" || n == "bytes.Contains" || n == "bytes.Index" {
+							if isTextSearch(n) {
 								return true
 							}
 							if _, isB := cl.Call.Value.(*ssa.Builtin); cl.Call.StaticCallee() == nil && !cl.Call.IsInvoke() && !isB {
@@ -630,7 +630,7 @@ func ruleC17(c *Ctx) {
 							continue
 						}
 						switch n := calleeName(cl); {
-						case n == "strings.Contains" || n == "strings.Index" || n == "bytes.Contains" || n == "bytes.Index":
+						case isTextSearch(n):
 							if !strings.Contains(kind, "bans") {
 								kind += "+bans"
 							}
@@ -661,6 +661,10 @@ func ruleC17(c *Ctx) {
 		staleNote := ""
 		if len(kinds) > 0 {
 			staleNote = " [stale: " + strings.Join(kinds, "+") + "]"
+		}
+		if testDesc == "" && len(stale) > 0 {
+			c.undecided("FRESHCHECK", "tests restarted after a shift whose test was not recognised", sh.Pos(), "the test that guards this shift is neither a search of the window for a text nor a call of a function value on it; which of the recorded findings this is cannot be said")
+			continue
 		}
 		c.check(len(stale) == 0, "FRESHCHECK", "tests restarted after shift in "+testDesc, sh.Pos(), "after this shift every test loop is restarted before the barcode is accepted", "after this shift the barcode can be appended without re-running the tests of "+strings.Join(stale, ", ")+staleNote+": an earlier verdict (ban, reverse complement or filter) is stale for the shifted window")
 	}
@@ -745,6 +749,195 @@ func ruleC17(c *Ctx) {
 	}
 	// CreateBarcodes wrapper
 	checkReturnIs(c, "TERM", "CreateBarcodes", w.fn("primers", "CreateBarcodes"), 0, "call[poly/primers.CreateBarcodesWithBannedSequences](param[0], param[1], slice(zero[[0]string], nil, nil), slice(zero[[0]func(string) bool], nil, nil))", "CreateBarcodes = CreateBarcodesWithBannedSequences(length, n, none, none)")
+}
+
+// sameTestSkipped: the shift in block blk was taken because a test G of the window (for one ban / one filter of
+// a list) said so. Any shift brings new letters into the window, so the same ban has to be looked for again.
+// Returns a description when the barcode can be appended on a path from the shift that neither runs G again
+// before the list moves on to its next element nor restarts the list from its beginning; "" when that is not
+// the case or the shape is not the one the rule reads (G not found, list walked by hand).
+func sameTestSkipped(tb *TermBuilder, cb *ssa.Function, deb string, blk, appBlk *ssa.BasicBlock) string {
+	// G: the innermost call on the window among the conditions under which blk runs
+	var g *ssa.Call
+	for _, a := range pathCond(tb, cb.Blocks[0], blk).atoms() {
+		a.Atom.walk(func(x *Term) {
+			cl, ok := x.V.(*ssa.Call)
+			if !ok || x.Op != "call" || cl.Parent() != cb {
+				return
+			}
+			for _, arg := range cl.Call.Args {
+				if sl, isSl := arg.(*ssa.Slice); isSl && tb.T(sl.X).String() == deb {
+					if cl.Block().Dominates(blk) && (g == nil || g.Block().Dominates(cl.Block())) {
+						g = cl
+					}
+				}
+			}
+		})
+	}
+	if g == nil {
+		return ""
+	}
+	// the loops whose iteration selects what G looks for
+	heads := map[*ssa.BasicBlock]bool{}
+	seen := map[ssa.Value]bool{}
+	plain := true
+	var dep func(v ssa.Value, d int)
+	dep = func(v ssa.Value, d int) {
+		if v == nil || seen[v] || d > 12 {
+			return
+		}
+		seen[v] = true
+		switch x := v.(type) {
+		case *ssa.Phi:
+			b := x.Block()
+			isHead := false
+			for i, p := range b.Preds {
+				if b.Dominates(p) {
+					isHead = true
+					// the element advances by a fixed step on the way round: phi + const, nothing rewinds it
+					bo, ok := x.Edges[i].(*ssa.BinOp)
+					if !ok || bo.X != ssa.Value(x) {
+						plain = false
+					} else if _, isC := bo.Y.(*ssa.Const); !isC {
+						plain = false
+					}
+				}
+			}
+			if isHead && naturalLoopOf(b)[g.Block()] {
+				heads[b] = true
+			}
+			return
+		case *ssa.Next:
+			if b := x.Block(); naturalLoopOf(b)[g.Block()] {
+				heads[b] = true
+			}
+			return
+		case *ssa.Slice:
+			if tb.T(x.X).String() == deb {
+				return // the window itself
+			}
+		}
+		if in, ok := v.(ssa.Instruction); ok {
+			for _, op := range in.Operands(nil) {
+				if *op != nil {
+					dep(*op, d+1)
+				}
+			}
+		}
+	}
+	for _, arg := range g.Call.Args {
+		dep(arg, 0)
+	}
+	if g.Call.StaticCallee() == nil && !g.Call.IsInvoke() {
+		dep(g.Call.Value, 0)
+	}
+	if len(heads) == 0 || !plain {
+		return ""
+	}
+	type st struct {
+		b     *ssa.BasicBlock
+		moved bool
+	}
+	visited := map[st]bool{}
+	var work []st
+	step := func(u, v *ssa.BasicBlock, moved bool) {
+		if heads[v] {
+			if v.Dominates(u) {
+				moved = true // round the list's loop: the next element
+			} else {
+				return // the list is started again: everything is looked for in the shifted window
+			}
+		}
+		if !moved && v == g.Block() {
+			return // the same test, run again
+		}
+		n := st{v, moved}
+		if !visited[n] {
+			visited[n] = true
+			work = append(work, n)
+		}
+	}
+	for _, v := range blk.Succs {
+		step(blk, v, false)
+	}
+	for len(work) > 0 {
+		x := work[len(work)-1]
+		work = work[:len(work)-1]
+		if x.b == appBlk {
+			at := tb.F.Prog.Fset.Position(g.Pos())
+			return fmt.Sprintf("the window is moved once because the test at line %d found something, and the barcode can then be accepted without that test being run again for the same element: the shift brings new letters into the window, so a second occurrence in the shifted window goes unnoticed", at.Line)
+		}
+		for _, v := range x.b.Succs {
+			step(x.b, v, x.moved)
+		}
+	}
+	return ""
+}
+
+// isTextSearch: library calls that look for one text inside another.
+func isTextSearch(n string) bool {
+	switch strings.TrimPrefix(strings.TrimPrefix(n, "strings."), "bytes.") {
+	case "Contains", "Index", "LastIndex", "Count":
+		return strings.HasPrefix(n, "strings.") || strings.HasPrefix(n, "bytes.")
+	}
+	return false
+}
+
+// windowTestKind names the test a condition applies to a window debruijn[a:b]: "strings.Contains" (a text
+// search; "(rc)" appended when the text is a reverse complement), "filter" (a function value called on the
+// window) or "" when the call that receives the window is neither. Only the call that is handed the window
+// counts; the window's own bounds are not searched.
+func windowTestKind(tb *TermBuilder, deb string, cond *Term) string {
+	k, _ := windowTest(tb, deb, cond)
+	return k
+}
+
+func windowTest(tb *TermBuilder, deb string, cond *Term) (string, *ssa.BasicBlock) {
+	kind := ""
+	var site *ssa.BasicBlock
+	var visit func(t *Term)
+	visit = func(t *Term) {
+		if t == nil || t.Op == "slice" || t.Op == "phi" || t.Op == "rec" || t.Op == "anyof" {
+			return
+		}
+		if t.Op == "call" {
+			win := -1
+			for i, a := range t.Args {
+				if sl, ok := a.V.(*ssa.Slice); ok && a.Op == "slice" && tb.T(sl.X).String() == deb {
+					win = i
+				}
+			}
+			if win >= 0 {
+				switch {
+				case isTextSearch(t.Name):
+					k := "strings.Contains"
+					for i, a := range t.Args {
+						if i != win && a.contains(func(x *Term) bool { return x.isCall("poly/transform.ReverseComplement") }) {
+							k += "(rc)"
+						}
+					}
+					if kind == "" || kind == "filter" {
+						kind = k
+						if in, ok := t.V.(ssa.Instruction); ok {
+							site = in.Block()
+						}
+					}
+				case t.Name == "?":
+					if kind == "" {
+						kind = "filter"
+						if in, ok := t.V.(ssa.Instruction); ok {
+							site = in.Block()
+						}
+					}
+				}
+			}
+		}
+		for _, a := range t.Args {
+			visit(a)
+		}
+	}
+	visit(cond)
+	return kind, site
 }
 
 // overwrittenVerdict: f returns a bool variable that a loop assigns a fresh verdict on every iteration
